@@ -34,6 +34,31 @@ CLAIMED = {
         "note": TRUSTED,
         "technique": "static analysis: dominance-based accept-path rule over MIR (guards in force at every Ok return), error-chain consumption analysis, panic-surface enumeration",
     },
+    "C02": {
+        "text": "Static order / provenance / decision rules: assert_balance is applied to the very value add_posting_amount "
+                "returned for that posting (no clone / rounding / other call in between) against the evaluated `= X` of the "
+                "same posting; every Ok of the amount arm lies (on every path) behind `no assertion` or behind "
+                "is_absolute_zero() of that result, the other edge returns BalanceAssertionFailure built from this posting's "
+                "spans and the asserted balance; Amount::assert_balance returns zero() only under is_zero() of the whole "
+                "balance (`= 0`) or of single.value - get_part(single.commodity) (`= X C`); all balance mutators drop zero "
+                "entries of the entry they update; postings are folded by a plain enumerate() loop over txn.posts.  The "
+                "subtraction itself is not decided.",
+        "design_ref": "DESIGN.md §4 C02",
+        "note": TRUSTED,
+        "technique": "static analysis: operand provenance chains and disjunctive must-pass-edge rules over MIR",
+    },
+    "C03": {
+        "text": "Static path / provenance rules: a second unconstrained posting always returns UndeduciblePostingAmount; the "
+                "deduced amount is negate() applied directly to the accumulator of balance deltas, stored in postings[u] and "
+                "added to postings[u].account with the same u; balance mutators are called only while processing the posting "
+                "in hand on its own account; the assignment arm computes X.check_sub(prev) with prev returned by "
+                "set_partial(account, X); Balance::set_partial's bare-zero arm converts the previous balance with the "
+                "cardinality-checking conversion and returns its error; Amount::set_partial removes on zero / inserts "
+                "otherwise and returns the previous value of that commodity.  The value of the difference is not decided.",
+        "design_ref": "DESIGN.md §4 C03",
+        "note": TRUSTED,
+        "technique": "static analysis: operand provenance chains, who-may-call, must-pass rules over MIR",
+    },
     "C04": {
         "text": "Static decision tables and placement rules: DateRange::contains is enumerated path by path and equals the "
                 "half-open specification on all 52 cases (13 weak orderings of date/start/end x Some/None of both bounds, "
